@@ -350,6 +350,13 @@ func c17session(r *core.Run, se c17sess, runes []rune) {
 		}
 		s.RegisterRuneFallback(rn, fbs)
 		fallbacks[rn] = fbs
+		// the registration belongs to this screen only
+		if s2, err := tcell.NewTerminfoScreenFromTtyTerminfo(faketty.New(W, H), CopyTI(tic)); err == nil {
+			_, hasDef := tcell.RuneFallbacks[rn]
+			if got := s2.CanDisplay(rn, true); got != hasDef {
+				fail("fallback-leaks-to-other-screen", fmt.Sprintf("after RegisterRuneFallback(%U,%q) on one screen, CanDisplay(%U,true) on a newly created screen is %v (default table has it: %v)", rn, fbs, rn, got, hasDef), rn)
+			}
+		}
 		if rg.IntN(2) == 0 {
 			s.Sync()
 		} else {
